@@ -171,9 +171,5 @@ PROP = {
     "technique": "Kani/CBMC bounded symbolic model checking of the real PL_CDR writers and readers",
     "level_text": ("SAT-solver verdict over all numeric contents at full bit-width for a concrete grid of presence "
                    "patterns and enum variants; both byte orders."),
-    "level_note": ("Quick tier: QosPolicies single-policy grid, the parts, ParticipantMessageData, DiscoveredTopicData "
-                   "(all optional fields absent, both byte orders), DiscoveredWriterData (absent pattern, LE) and the open "
-                   "finding harness. Thorough tier: the remaining presence grid of all four PL_CDR records, defaults of "
-                   "omitted parameters, foreign parameters on a whole record. Trusted: Kani/CBMC/CaDiCaL, the container "
-                   "shim, the equivalence of speedy's stream and slice entry points."),
+    "level_note": "Quick tier: QosPolicies single-policy grid, the parts, ParticipantMessageData, DiscoveredTopicData (all optional fields absent, both byte orders) and the publication optional-field harness (the defect it found was repaired in /repo, fix: abf7db9; it now passes as a regression check). Thorough tier: the remaining presence grid of the four records, foreign parameters, defaults. Trusted: Kani/CBMC/CaDiCaL, container shim, the speedy entry-point and String::from_utf8 stand-ins listed under assumptions.",
 }
